@@ -44,30 +44,43 @@ func (r *Hosts) refreshLocked() {
 	}
 }
 
+// refresh reloads the table when it has expired. It takes the write lock for
+// that, so it must be called without r.mu held.
+func (r *Hosts) refresh() {
+	r.mu.RLock()
+	expired := !time.Now().Before(r.expires)
+	r.mu.RUnlock()
+	if expired {
+		r.mu.Lock()
+		r.refreshLocked()
+		r.mu.Unlock()
+	}
+}
+
 func (r *Hosts) Name() string {
 	return "hosts"
 }
 
 func (r *Hosts) Visit(f func(name string, addrs []string)) {
+	r.refresh()
 	r.mu.RLock()
 	defer r.mu.RUnlock()
-	r.refreshLocked()
 	for name, addrs := range r.names {
 		f(name, addrs)
 	}
 }
 
 func (r *Hosts) LookupAddr(addr string) []string {
+	r.refresh()
 	r.mu.RLock()
 	defer r.mu.RUnlock()
-	r.refreshLocked()
 	return r.addrs[addr]
 }
 
 func (r *Hosts) LookupHost(name string) []string {
+	r.refresh()
 	r.mu.RLock()
 	defer r.mu.RUnlock()
-	r.refreshLocked()
 	return r.names[prepareHostLookup(name)]
 }
 
